@@ -121,6 +121,9 @@ var c11msgs = func() []string {
 		}
 	}
 	out = append(out, "another message")
+	// long messages (a stack trace, a query): the budget is per message,
+	// whatever its length
+	out = append(out, "long: "+strings.Repeat("select * from t where id in (?, ?, ?) ", 3), "long: "+strings.Repeat("goroutine 17 [running]: main.handler ", 60))
 	return out
 }()
 
@@ -365,6 +368,11 @@ func runC11(c *Ctx) {
 				seen[class[m]] = true
 				ownMsg = append(ownMsg, m)
 			}
+		}
+		// which of the classes the tasks get varies (the long messages sit at the
+		// end of the alphabet)
+		if rot := g.Draw(len(ownMsg)); rot > 0 {
+			ownMsg = append(ownMsg[rot:], ownMsg[:rot]...)
 		}
 		nTasks = 2 + g.Draw(3)
 		if nTasks > len(ownMsg) {
